@@ -97,7 +97,7 @@ coin moves yet. -/
 theorem undelegate_at_once {c c' : Chain} {a : Addr} {v : String} {coin : Coin} (h : undelegate c a v coin = .ok c') :
     stakeOf c'.st a v = Dec.sub (stakeOf c.st a v) (Dec.ofNat coin.amount) ∧
     (stakeOf c'.st a v).floor = (stakeOf c.st a v).floor - coin.amount ∧
-    c'.st.queue = c.st.queue ++ [⟨a, v, coin.amount, c.time + c.st.info.unbondingTime⟩] ∧
+    c'.st.queue = c.st.queue ++ [⟨a, v, coin.amount, c.time + NS * c.st.info.unbondingTime⟩] ∧
     c'.bank = c.bank := by
   have e := undelegate_effect h
   exact ⟨e.2.2.2.2.1, undelegate_shown h, e.2.2.2.2.2.2.2.1, e.2.2.2.2.2.2.2.2.1⟩
